@@ -162,6 +162,17 @@ pub fn check_spec(rep: &mut Report, spec: &Spec, seed: u64) {
     if !check_minimize(rep, &mut auto, "builder", "autospec", &case, seed, None) {
         return;
     }
+    // the successor table requested first, then prune, then minimize — all on one object
+    if let Ok(Ok(mut a3)) = build_spec(spec) {
+        let _ = guard(|| a3.compile_successors());
+        if guard(|| a3.remove_unreachable_states()).is_ok() {
+            let _ = guard(|| a3.compile_successors());
+            rep.inc("table_prune_minimize_sequences");
+            if !check_minimize(rep, &mut a3, "builder: table, prune, minimize", "autospec", &case, seed, None) {
+                return;
+            }
+        }
+    }
     // and in the other order: prune first, then minimize (all states reachable: exact state count applies)
     if let Ok(Ok(mut a2)) = build_spec(spec) {
         if guard(|| a2.remove_unreachable_states()).is_ok() {
@@ -192,6 +203,10 @@ pub fn check_program(prog: &Program, seed: u64, thorough: bool, rep: &mut Report
 }
 
 pub fn run(p: &Params, rep: &mut Report) {
+    if p.shard == 1 {
+        let n = if p.thorough { 40_000 } else { 15_000 };
+        super::deep::probe(rep, "auto-chain", n, &super::deep::expect_auto_chain(n), "minimize", p.seed);
+    }
     let mut rng = p.rng(4);
     let n = p.size(8000, 80_000);
     for _ in 0..n {
